@@ -10,9 +10,9 @@ def run(ck):
                   'TzAsciiStr::new/as_bytes (Engine A): arbitrary slice of symbolic length 0..9']
     ck.stubs += ['S_unreach (c13_ref_fixed_or_none, c13_owned_equals_borrowed)', 'S_rule_spec (c13_rule_alternate): AlternateTime::find_local_time_type := std or dst, nondeterministically (which one is right is C04)']
     ck.trusted += ['Kani 0.68 / CBMC 6.11 (dev profile)', 'rustc MIR + encoder + cvc5/z3 for the Engine-A part']
-    hs = [H('c13_ref_fixed_or_none', cap=1500, meaning='TimeZoneRef::new: Ok <=> spec predicate (exact i128 arithmetic in the spec); every Err kind names a violated clause'),
+    hs = [H('c13_ref_fixed_or_none', cap=1500, playback=True, meaning='TimeZoneRef::new: Ok <=> spec predicate (exact i128 arithmetic in the spec); every Err kind names a violated clause'),
           H('c13_rule_alternate', cap=1500, meaning='with a DST rule: accepted <=> prescribed half equals the last transition\'s type in offset, flag and designation'),
-          H('c13_owned_equals_borrowed', cap=1500, meaning='TimeZone::new(vecs) and TimeZoneRef::new(slices): same verdict, same error kind, same contents')]
+          H('c13_owned_equals_borrowed', cap=1500, playback=True, meaning='TimeZone::new(vecs) and TimeZoneRef::new(slices): same verdict, same error kind, same contents')]
     kprop.run_harnesses(ck, hs)
     # ---- Engine A: LocalTimeType::new / with_ut_offset / TzAsciiStr::new + as_bytes on an arbitrary byte slice of symbolic length 0..9
     A = EngineA(ck, unwind={'new': 8, 'TzAsciiStr::new': 8})
@@ -78,4 +78,4 @@ def run(ck):
 
 
 def replay(ck, case):
-    return 1
+    return kprop.replay_playback(ck, case)
